@@ -22,4 +22,15 @@ CHECKS = {
     "C02": {"level": "exploration", "tests": [hist("TestC02")], "assumptions": COMMON_ASSUMPTIONS},
     "C03": {"level": "exploration", "tests": [hist("TestC03")], "assumptions": COMMON_ASSUMPTIONS},
     "C04": {"level": "exploration", "tests": [hist("TestC04")], "assumptions": COMMON_ASSUMPTIONS},
+    "C05": {"level": "exploration", "tests": [hist("TestC05History")], "assumptions": COMMON_ASSUMPTIONS},
+    "C06": {"level": "exploration", "tests": [hist("TestC06")], "assumptions": COMMON_ASSUMPTIONS},
+    "C07": {"level": "exploration", "tests": [hist("TestC07")], "assumptions": COMMON_ASSUMPTIONS},
+    "C08": {"level": "exploration", "tests": [hist("TestC08")], "assumptions": COMMON_ASSUMPTIONS},
+    "C09": {"level": "exploration", "tests": [hist("TestC09")], "assumptions": COMMON_ASSUMPTIONS},
+    "C10": {"level": "exploration", "tests": [hist("TestC10")], "assumptions": COMMON_ASSUMPTIONS},
+    "C11": {"level": "exploration", "tests": [hist("TestC11")], "assumptions": COMMON_ASSUMPTIONS},
+    "C12": {"level": "exploration", "tests": [hist("TestC12")], "assumptions": COMMON_ASSUMPTIONS},
+    "C15": {"level": "exploration", "tests": [hist("TestC15History")], "assumptions": COMMON_ASSUMPTIONS},
+    "C19": {"level": "fault_enumeration", "tests": [hist("TestC19History")], "assumptions": COMMON_ASSUMPTIONS},
+    "C20": {"level": "fault_enumeration", "tests": [hist("TestC20")], "assumptions": COMMON_ASSUMPTIONS},
 }
